@@ -72,13 +72,15 @@ def snapshot_repo():
     global _snapshot
     if _snapshot is None:
         dst = scratch_dir('impl_%d' % os.getpid())      # spawned workers share the scratch root, not the copy
-        shutil.copytree(os.path.join(REPO, 'smartquery'), os.path.join(dst, 'smartquery'),
-                        ignore=shutil.ignore_patterns('__pycache__'))
-        # force regeneration of the LALR tables from rules.py / lexer.py of the tree under test
-        for f in ('parsetab.py', 'lextab.py'):
-            p = os.path.join(dst, 'smartquery', 'gen', f)
-            if os.path.exists(p):
-                os.remove(p)
+        if not os.path.isdir(os.path.join(dst, 'smartquery')):
+            # (this module may be loaded twice in one process - as harness.common and as common: the copy is shared)
+            shutil.copytree(os.path.join(REPO, 'smartquery'), os.path.join(dst, 'smartquery'),
+                            ignore=shutil.ignore_patterns('__pycache__'))
+            # force regeneration of the LALR tables from rules.py / lexer.py of the tree under test
+            for f in ('parsetab.py', 'lextab.py'):
+                p = os.path.join(dst, 'smartquery', 'gen', f)
+                if os.path.exists(p):
+                    os.remove(p)
         _snapshot = dst
     return _snapshot
 
@@ -156,7 +158,7 @@ def run_tlc(module, cfg=None, workers=16, env=None, timeout=900, simulate=None, 
     # TLC's -coverage made the exhaustive runs more than 20 times slower (one model: 47 s without, > 20 min with); it is
     # only switched on when asked for explicitly.  Non-vacuity is shown by the expected-violation runs of the
     # specification mutants and by the per-kind event tallies of the replayed traces instead.
-    if coverage and os.environ.get('VERIF_TLC_COVERAGE') == '1':
+    if coverage == 'force' or (coverage and os.environ.get('VERIF_TLC_COVERAGE') == '1'):      # 'force': small models whose check reads the counts
         cmd += ['-coverage', '1']
     if simulate is not None:
         cmd += ['-simulate', simulate]
